@@ -231,6 +231,15 @@ public:
         else
           o["val"] = (int64_t)V.getZExtValue();
       }
+    } else if (E != E0 && !E->isValueDependent() && E->getType()->isIntegralOrEnumerationType() &&
+               E0->getType()->isFloatingType()) {
+      // an integer constant converted to a floating type (e.g. `number >= INT_MAX`): keep the integer value
+      Expr::EvalResult R;
+      if (E->EvaluateAsInt(R, Ctx, Expr::SE_NoSideEffects)) {
+        llvm::APSInt V = R.Val.getInt();
+        o["val"] = (int64_t)V.getExtValue();
+        o["intconst_as_float"] = true;
+      }
     } else if (!E0->isValueDependent() && E0->getType()->isPointerType()) {
       if (E0->isNullPointerConstant(Ctx, Expr::NPC_ValueDependentIsNotNull))
         o["null"] = true;
